@@ -220,6 +220,11 @@ class C05(PropertyCheck):
         # defect "the copy shares sets / sorted sets / hashes with the store by pointer"): the model's copy is a value
         for i, a in enumerate([c for c in pool if c[0] in ("SADD", "SREM", "SMOVE", "ZADD", "ZINCRBY", "ZREM", "HSET", "HDEL", "LPUSH", "APPEND")]):
             jobs.append(Job("cl%d" % i, [("cmd", a), ("copylate",)]))
+        # ... and two commands after the copy: one that frees capacity at the end of a stored list (the sub-slice keeps the
+        # array), one that fills it again — a copy that shares the array with the store shows an element the list never had
+        for i, (a, b) in enumerate([(["RPOP", "l", "2"], ["RPUSH", "l", "x"]), (["LTRIM", "l", "0", "0"], ["RPUSH", "l", "y", "z"]),
+                                    (["RPOP", "l"], ["RPUSH", "l", "w"])]):
+            jobs.append(Job("cl2_%d" % i, [("cmd", a), ("cmd", b), ("copylate",)], {"max": 150 if q else 400}))
         # calls of the embedded API that do not go through handleCommand (SwapDBs, Flush) against commands on connections.
         # They used to bypass the command lock (repaired: GET lost its key to a concurrent Flush between keysExist and
         # getValues); they are not programs of the model, so they are judged by the serial-order oracle and by "no thread
